@@ -5,6 +5,7 @@
 package traceroute
 
 //@ func performTCPFallback
+//@ inline
 //@ safety C20
 //@ ensures[C20.syn]        (tcpMethod == "" || tcpMethod == TCPConfigSYN) ==> calls(doSyn) == old(calls(doSyn))+1 && calls(doSack) == old(calls(doSack)) && calls(doSynSocket) == old(calls(doSynSocket)) && ret0 == lastret(doSyn, 0) && ret1 == lastret(doSyn, 1)
 //@ ensures[C20.sack]       tcpMethod == TCPConfigSACK ==> calls(doSack) == old(calls(doSack))+1 && calls(doSyn) == old(calls(doSyn)) && calls(doSynSocket) == old(calls(doSynSocket)) && ret0 == lastret(doSack, 0) && ret1 == lastret(doSack, 1)
@@ -27,13 +28,17 @@ package traceroute
 //@ ensures[C08.sack.timeouts] ret1 == nil ==> ret0.HandshakeTimeout == timeout && ret0.ParallelParams.TracerouteTimeout == timeout && int(ret0.ParallelParams.PollFrequency) == 100000000 && int(ret0.ParallelParams.SendDelay) == 10000000
 
 //@ func runTracerouteOnce
-//@ safety C19
+//@ safety C19 C10 C20
+//@ requires[pre.ctx]        ctx != nil && sendN >= 0
+//@ ensures[C10.once.closed] forallint(h, !old(selb(isOpen, h)) ==> !selb(isOpen, h))
+//@ ensures[C10.once.others] forallint(h, old(selb(isOpen, h)) ==> selb(isOpen, h) && sel(closeN, h) == old(sel(closeN, h)))
+//@ ensures[C20.once.nodial] !(params.Protocol == "tcp" && (params.TCPMethod == TCPConfigSACK || params.TCPMethod == TCPConfigPreferSACK)) ==> tcpDialed == old(tcpDialed)
 //@ ensures[C10.once.atom]   ret1 != nil ==> ret0 == nil
 //@ ensures[C03.once.hops]   ret1 == nil ==> ret0 != nil && forall(i, 0, len(ret0.Hops), ret0.Hops[i] != nil)
 //@ ensures[C19.once.ttl]    ret1 == nil ==> 1 <= params.MinTTL && params.MinTTL <= params.MaxTTL && params.MaxTTL <= 255
 //@ ensures[C19.once.proto]  ret1 == nil ==> params.Protocol == "udp" || params.Protocol == "tcp" || params.Protocol == "icmp"
+//@ modifies *, ghost isOpen, ghost closeN, ghost clock, ghost sendN, ghost sendLog, ghost sendClock, ghost tcpDialed, ghost ioFail
 //@ ensures[C19.once.method] ret1 == nil && params.Protocol == "tcp" ==> params.TCPMethod == "" || params.TCPMethod == TCPConfigSYN || params.TCPMethod == TCPConfigSACK || params.TCPMethod == TCPConfigSYNSocket || params.TCPMethod == TCPConfigPreferSACK
-//@ modifies *
 
 //@ func runE2eProbeOnce
 //@ safety C20
